@@ -4,7 +4,7 @@
    integers used by the correspondence runs).  [wf r c M] = M is an r x c list matrix. *)
 From Coq Require Import List Bool Arith Lia Ring ZArith.
 From QV Require Import Base.Mat Base.Zi C17.Alg C17.Model C17.Spec C17.ZiInst
-  C17.ProofsIdx C17.ProofsVec.
+  C17.ProofsIdx C17.ProofsVec C17.ProofsPerm C17.ProofsPauli C17.ProofsStine C17.ProofsPath.
 Import ListNotations.
 
 (* ---- vectorisation orders are bijections (every dimension; system order: every n) *)
@@ -24,6 +24,8 @@ Section Generic.
   Hypothesis cj0 : cj (zero K) = zero K.
   Hypothesis cj_add : forall a b, cj (add K a b) = add K (cj a) (cj b).
   Hypothesis cj_mul : forall a b, cj (mul K a b) = mul K (cj a) (cj b).
+  Hypothesis cj_cj : forall a, cj (cj a) = a.
+  Hypothesis cj1 : cj (one K) = one K.
 
   (* unvectorization(vectorization(M)) = M and conversely, for row, column and system order *)
   Theorem vec_unvec : forall o M v,
@@ -59,8 +61,113 @@ Section Generic.
     d <> 0 -> Forall (wf d d) Ks -> wf d d rho -> a < d -> b < d ->
     mget K (kraus_action K cj d Ks rho) a b = kraus_entry K cj d Ks rho a b.
   Proof. intros. now apply (ProofsVec.mget_kraus_action K cj SR). Qed.
+
+  (* Stinespring: stinespring_to_kraus (kraus_to_stinespring Ks v0) v0 = <v0|v0> Ks *)
+  Theorem stinespring_roundtrip : forall d Ks v0 alpha i j,
+    length v0 = length Ks -> alpha < length Ks -> i < d -> j < d ->
+    mget K (nth alpha (stinespring_to_kraus K d (length Ks) (kraus_to_stinespring K cj d Ks v0) v0) []) i j
+    = mul K (mget K (nth alpha Ks []) i j) (bsum K (length Ks) (fun b => mul K (cj (vget K v0 b)) (vget K v0 b))).
+  Proof. intros. now apply (ProofsStine.stinespring_roundtrip K cj SR cj0). Qed.
+
+  (* choi_to_kraus, under the contract of eigh (M = sum s_k^2 v_k v_k^dagger, s_k real): the
+     Kraus operators s_k * unvectorization(v_k) reproduce the Choi matrix, in every order *)
+  Theorem kraus_reproduce_choi : forall o M (evs : list (T * vec T)),
+    (forall sv, In sv evs -> cj (fst sv) = fst sv) ->
+    (forall x y, x < odim o * odim o -> y < odim o * odim o ->
+       mget K M x y = lsum K (map (fun sv => mul K (mul K (fst sv) (fst sv))
+                                   (mul K (vget K (snd sv) x) (cj (vget K (snd sv) y)))) evs)) ->
+    forall x y, x < odim o * odim o -> y < odim o * odim o ->
+    mget K (kraus_to_choi K cj o (choi_to_kraus_from_eig K o evs)) x y = mget K M x y.
+  Proof. intros. now apply (choi_to_kraus_contract K cj SR cj0 cj_mul). Qed.
+
+  (* channel networks: the tensor of QuantumChannel.from_operator(choi, inverse=True) denotes the channel *)
+  Theorem qchannel_semantics_ok : forall d Ks rho o o', o < d -> o' < d ->
+    mget K (network_action K d d (qn_from_operator_inv K d d (kraus_to_choi K cj (Row d) Ks)) rho) o o'
+    = kraus_entry K cj d Ks rho o o'.
+  Proof. intros. now apply (ProofsStine.qchannel_semantics_ok K cj SR cj0). Qed.
+
+  (* link product "ij,jk->ik" / @ : matrix product of the tensors = composition of the maps *)
+  Theorem link_product_ok : forall pin pmid pout t1 t2 rho o o',
+    wf (pin * pin) (pmid * pmid) t1 -> length t2 = pmid * pmid -> o < pout -> o' < pout ->
+    mget K (network_action K pin pout (qn_link K t1 t2) rho) o o'
+    = mget K (network_action K pmid pout t2 (network_action K pin pmid t1 rho)) o o'.
+  Proof. intros. now apply (ProofsStine.link_product_ok K SR). Qed.
+
+  (* QuantumChannel.apply, pure branch: U rho U^dagger *)
+  Theorem qchannel_apply_pure_ok : forall d U rho j k, j < d -> k < d ->
+    mget K (qn_apply_pure K cj d d (mtrans K d d U) rho) j k = kraus_entry K cj d [U] rho j k.
+  Proof. intros. now apply (ProofsStine.qchannel_apply_pure_ok K cj SR). Qed.
+
+  (* Pauli basis: orthogonal for every n and every pauli_order (a permutation of the four labels),
+     given that the single-qubit table is orthogonal *)
+  Section PauliBasis.
+    Variable ps : nat -> mat T.
+    Variable po : list nat.
+    Hypothesis ps_orth : forall x y, x < 4 -> y < 4 ->
+      H1 K cj ps x y = if Nat.eqb x y then two K else zero K.
+    Hypothesis po_perm : NoDup po /\ length po = 4 /\ (forall x, In x po -> x < 4).
+
+    Theorem pauli_basis_orthogonal : forall n a b, a < 4 ^ n -> b < 4 ^ n ->
+      hs K cj (2 ^ n) (pauli_mat K ps po n a) (pauli_mat K ps po n b)
+      = if Nat.eqb a b then twopow K n else zero K.
+    Proof.
+      intros. destruct po_perm as [P1 [P2 P3]].
+      now apply (ProofsPauli.pauli_basis_orthogonal K cj SR cj1 cj_mul ps po ps_orth P1 P2 P3).
+    Qed.
+
+    (* comp_basis_to_pauli . pauli_to_comp_basis = 2^n I, for row, column and system order *)
+    Theorem basis_change_product : forall o n, odim o = 2 ^ n ->
+      mmul K (comp_basis_to_pauli K cj ps po o n) (pauli_to_comp_basis K ps po o n)
+      = smat K (4 ^ n) (twopow K n).
+    Proof.
+      intros. destruct po_perm as [P1 [P2 P3]].
+      now apply (ProofsPauli.basis_change_product K cj SR cj0 cj1 cj_mul ps po ps_orth P1 P2 P3).
+    Qed.
+
+    (* to_pauli after from_pauli is the identity up to the factor (2^n)^2 of the un-normalised basis *)
+    Theorem to_pauli_from_pauli : forall o n P a b, odim o = 2 ^ n ->
+      wf (4 ^ n) (4 ^ n) P -> a < 4 ^ n -> b < 4 ^ n ->
+      mget K (liouville_to_pauli K cj ps po o n (pauli_to_liouville K cj ps po o n P)) a b
+      = mul K (mul K (twopow K n) (mget K P a b)) (twopow K n).
+    Proof.
+      intros. destruct po_perm as [P1 [P2 P3]].
+      now apply (ProofsPauli.to_pauli_from_pauli K cj SR cj0 cj1 cj_mul cj_cj ps po ps_orth P1 P2 P3).
+    Qed.
+
+    (* the other direction needs completeness of the single-qubit table *)
+    Hypothesis ps_complete : forall r c r' c', r < 2 -> c < 2 -> r' < 2 -> c' < 2 ->
+      C1 K cj ps r c r' c' = if Nat.eqb r r' && Nat.eqb c c' then two K else zero K.
+
+    (* sum_a P_a[r][c] conj(P_a[r'][c']) = 2^n delta_rr' delta_cc', every n *)
+    Theorem pauli_basis_complete : forall n r c r' c', r < 2 ^ n -> c < 2 ^ n -> r' < 2 ^ n -> c' < 2 ^ n ->
+      CS K cj ps po n r c r' c' = if Nat.eqb r r' && Nat.eqb c c' then twopow K n else zero K.
+    Proof.
+      intros. destruct po_perm as [P1 [P2 P3]].
+      now apply (ProofsPauli.pauli_complete K cj SR cj1 cj_mul ps po P1 P2 P3 ps_complete).
+    Qed.
+
+    (* from_pauli after to_pauli is the identity up to the same factor *)
+    Theorem from_pauli_to_pauli : forall o n L a b, odim o = 2 ^ n ->
+      wf (4 ^ n) (4 ^ n) L -> a < 4 ^ n -> b < 4 ^ n ->
+      mget K (pauli_to_liouville K cj ps po o n (liouville_to_pauli K cj ps po o n L)) a b
+      = mul K (mul K (twopow K n) (mget K L a b)) (twopow K n).
+    Proof.
+      intros. destruct po_perm as [P1 [P2 P3]].
+      now apply (ProofsPauli.from_pauli_to_pauli K cj SR cj0 cj1 cj_mul cj_cj ps po P1 P2 P3 ps_complete).
+    Qed.
+  End PauliBasis.
 End Generic.
 Print Assumptions vec_unvec.
+Print Assumptions stinespring_roundtrip.
+Print Assumptions kraus_reproduce_choi.
+Print Assumptions qchannel_semantics_ok.
+Print Assumptions link_product_ok.
+Print Assumptions qchannel_apply_pure_ok.
+Print Assumptions pauli_basis_orthogonal.
+Print Assumptions basis_change_product.
+Print Assumptions to_pauli_from_pauli.
+Print Assumptions pauli_basis_complete.
+Print Assumptions from_pauli_to_pauli.
 Print Assumptions reshuffle_involutive.
 Print Assumptions choi_acts.
 Print Assumptions choi_liouville_iso.
@@ -72,6 +179,56 @@ Example liouville_acts_Zi : forall col d Ks rho x, x < d * d ->
   vget Ziops (mvmul Ziops (kraus_to_liouville Ziops zi_conj col d Ks) (vectorize Ziops (ord col d) rho)) x
   = kraus_entry Ziops zi_conj d Ks rho (fst (vun (ord col d) x)) (snd (vun (ord col d) x)).
 Proof. intros. now apply (liouville_acts Ziops zi_conj Zi_SR zi_conj_0). Qed.
+
+(* the concrete I, X, Y, Z over the Gaussian integers satisfy the table hypothesis, so the Pauli
+   theorems hold for the model the correspondence runs use, for each of the 24 orderings *)
+Lemma zP_orth : forall x y, x < 4 -> y < 4 ->
+  H1 Ziops zi_conj zP x y = if Nat.eqb x y then two Ziops else zero Ziops.
+Proof.
+  intros x y Hx Hy.
+  destruct x as [|[|[|[|x]]]]; try lia; destruct y as [|[|[|[|y]]]]; try lia; vm_compute; reflexivity.
+Qed.
+Lemma zP_complete : forall r c r' c', r < 2 -> c < 2 -> r' < 2 -> c' < 2 ->
+  C1 Ziops zi_conj zP r c r' c' = if Nat.eqb r r' && Nat.eqb c c' then two Ziops else zero Ziops.
+Proof.
+  intros r c r' c' Hr Hc Hr' Hc'.
+  destruct r as [|[|r]]; try lia; destruct c as [|[|c]]; try lia;
+  destruct r' as [|[|r']]; try lia; destruct c' as [|[|c']]; try lia; vm_compute; reflexivity.
+Qed.
+Example from_pauli_to_pauli_Zi : forall po o n L a b,
+  NoDup po /\ length po = 4 /\ (forall x, In x po -> x < 4) -> odim o = 2 ^ n ->
+  wf (4 ^ n) (4 ^ n) L -> a < 4 ^ n -> b < 4 ^ n ->
+  mget Ziops (z_pauli_to_liouville po o n (z_liouville_to_pauli po o n L)) a b
+  = zi_mul (zi_mul (twopow Ziops n) (mget Ziops L a b)) (twopow Ziops n).
+Proof.
+  intros po o n L a b Hpo Ho HL Ha Hb.
+  exact (from_pauli_to_pauli Ziops zi_conj Zi_SR zi_conj_0 zi_conj_mul zi_conj_invol zi_conj_1 zP po Hpo zP_complete o n L a b Ho HL Ha Hb).
+Qed.
+Example pauli_basis_orthogonal_Zi : forall po n a b,
+  NoDup po /\ length po = 4 /\ (forall x, In x po -> x < 4) -> a < 4 ^ n -> b < 4 ^ n ->
+  hs Ziops zi_conj (2 ^ n) (z_pauli_mat po n a) (z_pauli_mat po n b)
+  = if Nat.eqb a b then twopow Ziops n else zero Ziops.
+Proof.
+  intros po n a b Hpo Ha Hb.
+  exact (pauli_basis_orthogonal Ziops zi_conj Zi_SR zi_conj_mul zi_conj_1 zP po zP_orth Hpo n a b Ha Hb).
+Qed.
+
+(* ---- QuantumChannel.apply, non-pure branch, on the documented construction: refuted *)
+Theorem qchannel_apply_nonpure_refuted :
+  exists (Ks : list (mat Zi)) (rho : mat Zi), Forall (wf 2 2) Ks /\ wf 2 2 rho /\
+    z_qn_apply 2 2 (z_qn_from_operator_inv 2 2 (z_kraus_to_choi (Row 2) Ks)) rho <> z_kraus_action 2 Ks rho.
+Proof.
+  exists [[[(1,0); (2,0)]; [(0,3); (4,0)]]]%Z, [[(1,0); (2,1)]; [(5,0); (7,0)]]%Z.
+  split; [repeat constructor|]. split; [repeat constructor|]. exact qchannel_apply_nonpure_refuted_witness.
+Qed.
+Print Assumptions qchannel_apply_nonpure_refuted.
+
+(* ---- path independence over the table of conversion functions: BOUNDED exhaustive instance check
+   (n = 1 rank 2, n = 2 rank 1 on permuted qubits; row and column order; all 24 Pauli orderings;
+   every ordered pair and every triple of {Choi, Liouville, Pauli-Liouville, chi}) *)
+Theorem path_independence_bounded : all_paths_ok = true /\ length pauli_orders = 24.
+Proof. split; [exact all_paths_ok_true|reflexivity]. Qed.
+Print Assumptions path_independence_bounded.
 
 (* ---- to_pauli_liouville ignores `order` when it builds the basis change: refuted by a 2x2 witness *)
 Local Open Scope Z_scope.
